@@ -7,6 +7,24 @@ ROOT = os.path.dirname(os.path.dirname(os.path.abspath(__file__)))
 
 # pid -> (technique, level text, level_note)
 CHECKS = {
+    "C20": ("reference-model monitor: real dataflow.build_def_use on random graphs of define/use statements (real Graph/StatementBlock, catch edges) and, as a passive wrapper, inside the decompilation of every shipped method; oracle = explicit path search over the instruction-level CFG",
+            "UD compared as sets per (variable, use) key incl. parameter definitions at -1,-2,..; DU must be the exact inverse.",
+            "edges leave from the end of a node (the decompiler's own graph definition); duplicate list entries are not judged"),
+    "C21": ("translation check by execution: generated int/long methods -> DEX -> DAD source -> javac -> JVM, every call compared with an independent Dalvik interpreter (cross-checked against the JVM on the generator's own Java rendering); single-subject pools attribute failures, explain-away re-runs attribute random methods",
+            "1075 single-subject methods (every operator x form x operand shape, comparison, two-level nesting, switch shape, declaration pattern) + random pools on boundary and random argument tuples.",
+            "11 structural decompiler defects are known findings keyed by mechanism (switch and do-while structuring, division side effects, declarations); residual failures of random methods containing a switch or do-while are one composite known mechanism; argument tuples are sampled, not exhaustive"),
+    "C22": ("determinism monitor: every method decompiled in several fresh processes under different PYTHONHASHSEED, junk allocations, gc settings, shuffled order and a hash-perturbation monitor (per-object random __hash__ for decompiler nodes); SHA-256 of the source must agree; site counters show sets with >= 2 elements were iterated",
+            "All methods of classes.dex and the small shipped DEX files plus generated methods, 6 (quick) / 12 (thorough) children; an isolation child attributes a difference to the set-iteration site.",
+            "hash perturbation over-approximates layouts for hash-ordered containers only; allocator behaviours cannot be enumerated"),
+    "C25": ("exhaustive translation check by execution: all 576 two-node and (thorough) all 28 800 three-node condition-chain graphs x every truth assignment, decompiled, compiled by javac, run in a JVM and compared with the interpreter; Condition.__init__ merge counter must be > 0",
+            "Quick: all two-node graphs + 3000 sampled three-node graphs; thorough: exhaustive.",
+            "javac 17/JVM 17 give the meaning of the printed condition"),
+    "C36": ("schedule enumeration against the real code: real processes importing androguard.session are paused at Table.__len__/insert (and table creation) by a cross-process rendez-vous scheduler; ALL interleavings of read/insert for k=2 (6) and k=3 (90) on a fresh and a prepared database; offline oracle over the recorded history",
+            "Extended read/sync/create/insert trees and 16-process stress rounds with seeded sleeps in thorough.",
+            "pauses sit between statements executed in separate autocommit transactions (points where the OS can pre-empt the process); watchdog => inconclusive"),
+    "C37": ("sys.addaudithook file-creation monitor (realpath at event time) + before/after snapshot of a canary parent around the real export_apps_to_format run in a sandbox on generated DEX files with hostile class and method names",
+            "Class names with '..', '.', empty and absolute-looking segments, long segments, backslashes; method names with '/' and '..'; benign controls must create files inside the output directory.",
+            "only effective creations count (a failed attempt outside is not a violation); exceptions are acceptable outcomes"),
     "C26": ("reference-model monitor: random XML trees serialised by an independent AXML writer (vf/model/axmlw.py) -> AXMLPrinter.get_xml_obj()/get_xml() compared on tags, namespaces, attributes, typed values, text",
             "Feature-partitioned pools (UTF-8/UTF-16 pools incl. 2-unit lengths, namespaces incl. re-declarations, every Res_value type, text/mixed content, resource-id maps incl. stripped names, comments); a clean base pool is required.",
             "writer self-checked by an own reader that also parses all shipped AXML files; names are ASCII XML names, values legal XML chars"),
